@@ -393,6 +393,7 @@ func (m *qmodel) battery(r *h.Rand, pts []orb.Point, light bool) {
 		w := float64(1 + i%3)
 		m.queryInBound(orb.Bound{Min: orb.Point{q[0] - w, q[1] - w}, Max: orb.Point{q[0] + w, q[1] + w}}, fl, nil)
 		m.queryInBound(orb.Bound{Min: q, Max: q}, qfilters[0], stale[:0:8])
+		m.queryInBound(orb.Bound{Min: orb.Point{q[0] - w, q[1] - w}, Max: orb.Point{q[0] + w, q[1] + w}}, qfilters[0], stale[:5:8])
 		if len(m.live) > 0 {
 			it := m.live[i%len(m.live)]
 			m.queryInBound(orb.Bound{Min: orb.Point{math.Min(q[0], it.pt[0]), math.Min(q[1], it.pt[1])}, Max: orb.Point{math.Max(q[0], it.pt[0]), math.Max(q[1], it.pt[1])}}, qfilters[0], nil)
@@ -438,6 +439,9 @@ func init() {
 	runHistory := func(c *h.Ctx, idx uint64, L int, r *h.Rand) {
 		m := newQModel(c, orb.Bound{Min: orb.Point{0, 0}, Max: orb.Point{8, 8}})
 		code := idx
+		if idx%16 == 0 {
+			m.battery(r, c11queries, false) // a tree nothing was ever added to
+		}
 		for s := 0; s < L && !m.failed; s++ {
 			c11step(m, int(code%c11ops))
 			code /= c11ops
@@ -549,6 +553,7 @@ func init() {
 						}
 					}
 					m := newQModel(c, b)
+					m.battery(r, alpha[:6], false) // a tree nothing was ever added to
 					nops := r.Range(200, 2000)
 					qs := make([]orb.Point, 6)
 					burst := 0
